@@ -4,6 +4,7 @@ import SmtpV.Model.Reply
 import SmtpV.Model.Server
 import Driver.Conv
 import SmtpV.Spec.Codec
+import SmtpV.Spec.Rfc5321
 /-!
 Line-protocol glue for the component probes: xtext codecs, parser entry points, reply rendering,
 client-side reply conversion.
@@ -112,5 +113,22 @@ def monitorRT (c a : List String) : String :=
       Spec.Codec.check14 fn (bytesOfHex s) got
     | _, _ => ["unparsable observation"]
   if bad.isEmpty then "ok" else "bad: " ++ String.intercalate "; " bad
+
+
+/-- `mon C11 parse path|rpath h(arg) ## answer` -/
+def monitorParse (c a : List String) : String :=
+  match c, a with
+  | [_, fn, arg], [ans] =>
+    if fn != "path" && fn != "rpath" then "ok" else
+    let s := bytesOfHex arg
+    if fn == "rpath" && "<>".b.isPrefixOf s then (if ans == "ok/-/" ++ hexOfBytes (s.drop 2) then "ok" else "bad: C11 the null reverse-path is not accepted as the empty mailbox")
+    else
+    match Spec.Rfc5321.classify s with
+    | .valid v rest =>
+      if ans == "ok/" ++ hexOfBytes v ++ "/" ++ hexOfBytes rest then "ok"
+      else "bad: C11 a well-formed path does not reach the backend as exactly that mailbox"
+    | .invalid cls => if ans == "err" then "ok" else "bad: C11 malformed path accepted (class " ++ cls ++ ")"
+    | .unspecified => "ok"
+  | _, _ => "bad: unparsable observation"
 
 end SmtpV.Driver.Codec
